@@ -169,6 +169,20 @@ def iter_program(rng):
                 else:
                     L.append("  for z in u { print(z); }")
             L.append("}")
+        elif c < 59 and r.chance(60):
+            # an iterable that only its iterator refers to, stepped across allocations and across
+            # evaluation of more than eight other ranges (the VM keeps the last eight ranges alive)
+            lo = r.range(0, 3)
+            hi = lo + r.range(2, 5)
+            src = r.choice(["%d..%d" % (lo, hi), "%d..%d" % (hi, lo), "[%d, %d, %d]" % (lo, hi, lo + 7),
+                            "(%d, %d)" % (lo, hi), "\"p\u00e9q\"", "Count.new(%d)" % hi])
+            press = "for k in %d..%d { var r = k..(k + %d); var s = \"abcdefghijklmnop\"[k..(k + 2)]; }" % (
+                r.range(0, 2), r.range(10, 13), r.range(20, 30))
+            if r.chance(50):
+                L.append("for x in %s { %s print([\"step\", x]); }" % (src, press))
+            else:
+                L.append("{ var it = (%s).iter(); %s print(it.next()); %s print(it.next()); "
+                         "for x in it { print([\"rest\", x]); } }" % (src, press, press))
         elif c < 62:
             # one shared iterator consumed by nested / consecutive loops
             src = r.choice(["[1, 2, 3, 4, 5, 6]", "0..7", "\"abcdef\"", "Count.new(6)", "(1, 2, 3, 4)"])
